@@ -21,6 +21,9 @@ func c04Field(t *rapid.T) string {
 		// names of 8 / 16 bytes that differ in one bit of a block's first byte (table hash block handling)
 		return pick(t, "al", "0abcdefg", "8abcdefg", "0abcdefgABCDEFGH", "8abcdefgABCDEFGH", "abcdefgh", "abcdefgH")
 	}
+	if rapid.IntRange(0, 30).Draw(t, "emptyname") == 0 {
+		return "" // the empty string is a field name like any other
+	}
 	if rapid.IntRange(0, 3).Draw(t, "hot") > 0 {
 		return "f" + strconv.Itoa(rapid.IntRange(0, 5).Draw(t, "hotf"))
 	}
